@@ -16,28 +16,28 @@ Print Assumptions c04_instrumented_loop_equals_fast_loop.
     run (same deliveries so far, same component state); a failed session failed
     exactly where the uninterrupted run raises. *)
 Theorem c04_session_visits_only_run_states : forall fuel end_ns (s0 : sst) ks,
-  sess_ok pay ustate invoke_script end_ns s0 (run_session invoke_script etype_of fuel end_ns s0 ks).
-Proof. exact (session_ok pay ustate invoke_script etype_of). Qed.
+  sess_ok pay ustate invoke_script end_ns s0 (run_session invoke_script etype_of metric_of fuel end_ns s0 ks).
+Proof. exact (session_ok pay ustate invoke_script etype_of metric_of). Qed.
 Print Assumptions c04_session_visits_only_run_states.
 
 (** A session that runs to completion ends in exactly the final state of the
     uninterrupted run. *)
 Theorem c04_session_ends_like_uninterrupted_run : forall fuel end_ns (s0 : sst) ks,
-  let x := run_session invoke_script etype_of fuel end_ns s0 ks in
+  let x := run_session invoke_script etype_of metric_of fuel end_ns s0 ks in
   s_phase x = Done ->
   exists n, forall fuel', (n <= fuel')%nat -> run_slow invoke_script fuel' end_ns s0 = Stopped (s_st x).
-Proof. exact (session_completes_like_uninterrupted pay ustate invoke_script etype_of). Qed.
+Proof. exact (session_completes_like_uninterrupted pay ustate invoke_script etype_of metric_of). Qed.
 Print Assumptions c04_session_ends_like_uninterrupted_run.
 
 (** step(n) delivers exactly n events (skipped pops do not count) unless the
     run ends first. *)
 Theorem c04_step_n_exact : forall fuel end_ns k (s : sst), 0 <= k ->
-  match citerate invoke_script etype_of fuel end_ns (mkCtl false (Some k) []) s with
+  match citerate invoke_script etype_of metric_of fuel end_ns (mkCtl false (Some k) []) s with
   | CPaused c' s' => processed s' = processed s + k
   | CStopped c' s' => exists j, 0 <= j <= k /\ processed s' = processed s + (k - j)
   | _ => True
   end.
-Proof. exact (step_n_exact pay ustate invoke_script etype_of). Qed.
+Proof. exact (step_n_exact pay ustate invoke_script etype_of metric_of). Qed.
 Print Assumptions c04_step_n_exact.
 
 (** A breakpoint pauses right after the first delivery that satisfies it. *)
@@ -49,15 +49,15 @@ Theorem c04_breakpoint_pauses_after_first_hit : forall end_ns c (s : sst) e h s'
   is_cancelled s e || (ev_time e <? clock s) = false ->
   pop_and_handle invoke_script s e h = Running s' ->
   let c' := mkCtl (pause_req c) (match steps c with Some k => Some (k - 1) | None => None end)
-                  (filter (fun b => negb (should_break etype_of s' e b && bp_one b)) (bps c)) in
-  cstep invoke_script etype_of end_ns c s =
-    if existsb (should_break etype_of s' e) (bps c) then CPaused c' s' else CRunning c' s'.
-Proof. exact (breakpoint_pauses_after_first_hit pay ustate invoke_script etype_of). Qed.
+                  (filter (fun b => negb (should_break etype_of metric_of s' e b && bp_one b)) (bps c)) in
+  cstep invoke_script etype_of metric_of end_ns c s =
+    if existsb (should_break etype_of metric_of s' e) (bps c) then CPaused c' s' else CRunning c' s'.
+Proof. exact (breakpoint_pauses_after_first_hit pay ustate invoke_script etype_of metric_of). Qed.
 Print Assumptions c04_breakpoint_pauses_after_first_hit.
 
 (** All C01 guarantees survive any control session. *)
 Theorem c04_session_keeps_engine_invariant : forall fuel start end_ns p pre ks,
-  let x := run_session invoke_script etype_of fuel end_ns (script_init start p pre) ks in
+  let x := run_session invoke_script etype_of metric_of fuel end_ns (script_init start p pre) ks in
   s_phase x <> Failed -> Inv pay ustate (s_st x).
 Proof. exact session_inv. Qed.
 Print Assumptions c04_session_keeps_engine_invariant.
